@@ -215,6 +215,13 @@ func runWorker(p Property, scs []Sc, tier string, w, n int, out string, tmp stri
 		share := left
 		if sc.Split && nsplit-done > 0 {
 			share = left / time.Duration(nsplit-done)
+			if tier != "thorough" {
+				// the quick tier is sized to complete: its budget is a cap for the whole run, not a ration per scenario
+				// (a ration made early scenarios time out on a loaded machine although the run as a whole had time)
+				if gen := left - time.Duration(nsplit-done-1)*time.Second; gen > share {
+					share = gen
+				}
+			}
 			done++
 		}
 		if sc.BudgetS > 0 && time.Duration(sc.BudgetS)*time.Second < share {
